@@ -170,6 +170,27 @@ def validity_sample(prop, seed, exe, cdir, n, rdir):
             done += 1
         finally:
             shutil.rmtree(top, ignore_errors=True)
+    # pinned inputs (compiled in every run so that recorded findings are reproduced deterministically)
+    xl, _ = build_translator_plain()
+    for name in ("m903",):
+        src = os.path.join(cdir, name + ".wasm")
+        if not os.path.exists(src):
+            continue
+        wd = os.path.join(rdir, "pinned-" + name)
+        os.makedirs(wd, exist_ok=True)
+        try:
+            r = subprocess.run([xl, src, "p.c"], cwd=wd, stdout=subprocess.PIPE, stderr=subprocess.PIPE, timeout=60)
+            if r.returncode == 0:
+                try:
+                    run_cmd(["gcc", "-std=gnu89", "-w", "-fsyntax-only", "-DWASM_THREADS_PTHREADS", "-I" + os.path.join(REPO, "w2c2"), "-I" + wd, "p.c"], cwd=wd)
+                except BuildError as e:
+                    msg = str(e)
+                    em = re.search(r"error: ([^\n]*)", msg)
+                    first = re.sub(r"[‘'\"][^’'\"]*[’'\"]", "Q", em.group(1)) if em else "compile-error"
+                    bad.append({"idx": 0, "args": "pinned:" + name, "error": msg[-900:], "class": safe_name(first)[:60]})
+                done += 1
+        finally:
+            shutil.rmtree(wd, ignore_errors=True)
     return done, bad
 
 
@@ -297,6 +318,8 @@ def behaviour_sample(seed, n, rdir):
         pick += rnd.sample(pool, min(len(pool), q))
     rest = [m for m in mods if m not in pick]
     pick += rnd.sample(rest, max(0, min(len(rest), n - len(pick))))
+    if "bulk.4" in mods:
+        pick.append("bulk.4")       # pinned: reproduces the recorded gnu-ld / memory.init finding in every run
     pick = sorted(set(pick))
     jobs = []
     for m in pick:
